@@ -801,7 +801,11 @@ func (h *Hist) step() {
 			// malformed ids: every short length, one too short, one too long, upper case, a non-hex digit
 			id = r.pick([]string{"", id[:1], id[:2], id[:7], id[:39], id + "0", strings.ToUpper(id), "g" + id[1:], id[:20] + " " + id[21:]})
 		}
-		h.X(tz, "update-ref", "refs/heads/"+b, id)
+		ref := "refs/heads/" + b
+		if r.chance(1, 8) {
+			ref = r.pick([]string{b, "heads/" + b, "refs/heads/" + b + "/", "refs/tags/" + b, "refs/heads/x/" + b, "/refs/heads/" + b, "refs/heads//" + b, "REFS/HEADS/" + b})
+		}
+		h.X(tz, "update-ref", ref, id)
 	case "twins":
 		// several tracked files with identical bytes in one directory (and below it), then all of them
 		// modified or deleted and the directory restored / re-added / removed: nothing may be keyed by content
@@ -888,7 +892,9 @@ func (h *Hist) step() {
 		if r.chance(1, 2) {
 			h.X(tz, "log")
 		} else {
-			if r.chance(1, 10) {
+			if r.chance(1, 8) {
+				h.X(tz, "log", "-n", r.pick([]string{"03", "010", "0x3", "+2", "1_0", "0b11", "-0", " 2", "2 "}))
+			} else if r.chance(1, 10) {
 				h.X(tz, "log", "-n", r.pick([]string{"1000000", "2147483647", "4294967296", "9223372036854775807"}))
 			} else {
 				h.X(tz, "log", "-n", fmt.Sprint(r.intn(8)))
@@ -917,7 +923,12 @@ func (h *Hist) step() {
 		h.X(tz, "write-tree")
 	case "hash-object":
 		if f, ok := h.pickFile(); ok {
-			h.X(tz, "hash-object", f)
+			h.X(tz, "hash-object", r.pick([]string{f, f, "./" + f, f + "/"}))
+		}
+		if r.chance(1, 4) {
+			if d, ok := h.pickDir(); ok {
+				h.X(tz, "hash-object", d)
+			}
 		}
 	case "junk":
 		h.junk(tz)
